@@ -40,6 +40,9 @@ fn main() {
         "locfn-replay" => xv::loc::cmd_fn_replay(rest),
         "textcodec-record" => xv::textcodec::cmd_record(rest),
         "clone-record" => xv::clone::cmd_record(rest),
+        "total-matrix" => xv::total::cmd_matrix(rest),
+        "total-pairs" => xv::total::cmd_pairs(rest),
+        "total-api" => xv::total::cmd_api(rest),
         other => {
             eprintln!("unknown subcommand {}", other);
             2
